@@ -15,6 +15,10 @@ def search(ctx):
     corpus (one program per clause of the statement and per class: written order of
     record fields, field targets) first, then generated
     programs; every difference is minimised to a small script + arguments."""
+    if ctx.impl_violations:
+        # the quick run (class representatives first) already has concrete failing inputs
+        ctx.log(f"search skipped: {len(ctx.impl_violations)} failing inputs already found")
+        return
     if ctx.build_harness("c08"):
         ctx.harness("c08", ["run", ctx.seed + 15485863, "search"], timeout=6000, name="search:c08")
 
